@@ -37,6 +37,14 @@ VALID = [
 INVALID = [5, "str", None, True, {"jsonrpc": "2.0", "id": 1}, {"jsonrpc": "2.0", "id": [1], "method": "m"},
            {"jsonrpc": "2.0", "id": 2, "result": {}, "error": {"code": 1, "message": "m"}}, {"jsonrpc": "2.0", "id": 1.5, "method": "m"}]
 ALPHABET = [VALID[0], VALID[1], VALID[2], INVALID[0], INVALID[4]]
+# falsy members, type twins as ids, nested arrays, members with extra / reordered members, duplicates (the library's
+# own parser decides which of them is a valid member)
+ODD = [0, "", False, {}, [], [[]], {"jsonrpc": "2.0"}, {"id": 0}, {"jsonrpc": "2.0", "id": 0, "result": {}},
+       {"jsonrpc": "2.0", "id": "", "result": []}, {"jsonrpc": "2.0", "id": 7, "result": {}}, {"jsonrpc": "2.0", "id": "7", "result": {}},
+       {"jsonrpc": "2.0", "id": True, "result": {}}, {"jsonrpc": "2.0", "id": 7.0, "result": {}},
+       {"result": {"k": 1}, "id": 3, "jsonrpc": "2.0", "extra": None}, {"jsonrpc": "2.0", "method": "", "params": {}},
+       {"jsonrpc": "2.0", "method": "%s {0} %(x)s", "params": {"t": "{}\u2028\n"}}, {"jsonrpc": "2.0", "id": None, "error": {"code": -32600, "message": ""}},
+       [{"jsonrpc": "2.0", "method": "nested"}], "2025-06-18", -32600, 100]
 
 
 def versions():
@@ -62,6 +70,8 @@ def events_of(case):
     for seg in case["segments"]:
         if "set" in seg:
             ev.append({"v": seg["set"]})
+        if seg.get("close_stdin"):
+            ev.append({"close_stdin": 1})
         b = seg_bytes(seg)
         pos = [0] + [p for p in seg.get("cuts", []) if 0 < p < len(b)] + [len(b)]
         for i in range(len(pos) - 1):
@@ -104,6 +114,24 @@ class Transport(Suite):
             for _ in range(6):
                 out.append({"segments": [{"set": v, "items": mixed, "cuts": sorted(rng.sample(bounds, rng.randrange(1, 6)))}]})
         out.append({"segments": [{"items": mixed, "cuts": []}]})  # never negotiated
+        # falsy / twin / nested / hostile members one by one and together, at both kinds of version, through every entry point
+        for v in ("2025-06-18", "2025-03-26"):
+            for m in ODD:
+                out.append({"segments": [{"set": v, "items": [line([m]), line([VALID[0], m, VALID[1]], "\r\n"), line(VALID[2])], "cuts": []}]})
+            out.append({"segments": [{"set": v, "items": [line(ODD), line(ODD + ODD)], "cuts": []}]})
+            for api in ("transport", "client"):
+                out.append({"segments": [{"set": v, "items": mixed, "cuts": []}, {"set": v, "items": mixed, "cuts": []}], "opts": {"api": api}})
+            # the same batch two and three times (second batch on one connection), the same version set again in between
+            b3 = line([VALID[0], INVALID[0], VALID[1]])
+            out.append({"segments": [{"set": v, "items": [b3, b3, b3], "cuts": []}, {"set": v, "items": [b3], "cuts": []}]})
+            # per-request streams registered, receivers gone, the client's write side closed before the batch arrives
+            out.append({"segments": [{"set": v, "items": mixed, "cuts": []}], "opts": {"pending": [11, "r-1", 12], "pending_closed": ["11"]}})
+            out.append({"segments": [{"set": v, "items": mixed, "cuts": []}], "opts": {"notif_closed": True}})
+            out.append({"segments": [{"set": v, "items": mixed + mixed, "cuts": []}], "opts": {"read_closed": True}})
+            out.append({"segments": [{"set": v, "items": [line(VALID[0])], "cuts": []}, {"close_stdin": True, "items": mixed + [line(VALID[2])], "cuts": []}]})
+            # more members than the 100-slot streams hold, consumer late
+            many = [dict(VALID[1], params={"i": i}) if i % 2 else dict(VALID[2], id=i) for i in range(230)]
+            out.append({"segments": [{"set": v, "items": [line(many), line(VALID[0])], "cuts": []}], "opts": {"consumer": "late"}})
         # version changes mid-connection
         n = 600 if budget == "quick" else 8000
         for _ in range(n):
@@ -114,7 +142,7 @@ class Transport(Suite):
                     r = rng.random()
                     if r < 0.55:
                         k = rng.randrange(0, 5)
-                        members = [rng.choice(VALID) if rng.random() < 0.65 else rng.choice(INVALID) for _ in range(k)]
+                        members = [rng.choice(VALID) if rng.random() < 0.6 else rng.choice(INVALID + ODD) for _ in range(k)]
                         txt = rng.choice([_c(members), json.dumps(members), " " + _c(members) + " "])
                         items.append({"text": txt, "term": rng.choice([nl, "\r\n"])})
                     elif r < 0.8:
@@ -135,27 +163,29 @@ class Transport(Suite):
     def impl_batch(self, cases):
         from .. import stdio_h
 
-        return stdio_h.run_reader_cases([{"events": events_of(c)} for c in cases])
+        return stdio_h.run_reader_cases([{"events": events_of(c), "opts": c.get("opts", {})} for c in cases])
 
     # ------------------------------------------------------------------ model
     def model_line(self, case):
         table, _ = G.line_table(all_texts(case))
-        return {"m": "stdio_reader", "events": events_of(case), "table": table, "cap": 100}
+        # (the reader model does not know about the child's stdin: with it closed the rejection is decided but cannot be written)
+        return {"m": "stdio_reader", "events": [e for e in events_of(case) if "close_stdin" not in e], "table": table, "cap": 100}
 
     def model_obs(self, out, case):
         if "driver_error" in out:
             return out
         _, msgs = G.line_table(all_texts(case))
-        return {"delivered": [msgs[i][0] for i in out["delivered"]], "notified": [msgs[i][0] for i in out["buffered"]],
+        return {"delivered": [msgs[i][0] for i in out["delivered"]], "notified": [msgs[i][0] for i in out["offered"]],
                 "rejections": out["rejections"]}
 
     def compare(self, case, o, m):
         if "harness_error" in o or "driver_error" in m:
             return "error"
-        for k in ("delivered", "notified"):
-            if core.canon(o[k]) != core.canon(m[k]):
-                return k
-        if len(o["writes"]) != m["rejections"]:
+        if o["delivered"] is not None and core.canon(o["delivered"]) != core.canon(m["delivered"]):
+            return "delivered"
+        if not G.notif_ok(o["notified"], m["notified"]):
+            return "notified"
+        if not any(seg.get("close_stdin") for seg in case["segments"]) and len(o["writes"]) != m["rejections"]:
             return "rejections"
         return None
 
@@ -165,9 +195,14 @@ class Transport(Suite):
 
         mode = True
         delivered, notified, rejected, forbidden = [], [], 0, []
+        stdin_open = True
+        sets = []
         for seg in case["segments"]:
             if "set" in seg:
                 mode = mode_of(seg["set"])
+                sets.append({"set": seg["set"], "enabled": mode})
+            if seg.get("close_stdin"):
+                stdin_open = False
             for it in seg["items"]:
                 v = stdio_h.parse_line(it["text"])
                 if v[0] == "single":
@@ -182,16 +217,17 @@ class Transport(Suite):
                                 if mem[1]:
                                     notified.append(mem[0])
                     else:
-                        rejected += 1
+                        rejected += 1 if stdin_open else 0  # with the child's stdin closed there is nowhere to answer
                         forbidden += [mem[0] for mem in v[1] if mem is not None]
-        return {"delivered": delivered, "notified": notified[:100], "rejections": rejected, "_forbidden": forbidden}
+        return {"delivered": delivered, "notified": notified, "rejections": rejected, "_forbidden": forbidden, "_sets": sets}
 
     def oracle(self, case, o):
         want = self.expected(case)
         forbidden = want.pop("_forbidden")
+        sets = want.pop("_sets")
         if "harness_error" in o:
             return ("client-raised", f"the stdio client raised {o['harness_error']}", want)
-        if core.canon(o["delivered"]) != core.canon(want["delivered"]):
+        if o["delivered"] is not None and core.canon(o["delivered"]) != core.canon(want["delivered"]):
             fb = {core.canon(x) for x in forbidden}
             wanted = {core.canon(x) for x in want["delivered"]}
             if any(core.canon(x) in fb and core.canon(x) not in wanted for x in o["delivered"]):
@@ -208,7 +244,14 @@ class Transport(Suite):
             code = j.get("error", {}).get("code") if isinstance(j, dict) and isinstance(j.get("error"), dict) else None
             if code != -32600 or isinstance(code, bool):
                 return ("rejection-code", "the message written back for a rejected batch is not a -32600 error", want)
-        if core.canon(o["notified"]) != core.canon(want["notified"]):
+        for w, g in zip(sets, o.get("info") or []):
+            if g.get("enabled") is not w["enabled"] or g.get("version") != w["set"] or (
+                    isinstance(g.get("info"), dict) and (g["info"].get("batching_enabled") is not w["enabled"]
+                                                         or g["info"].get("supports_batch_function") is not w["enabled"]
+                                                         or g["info"].get("protocol_version") != w["set"])):
+                return ("version-getters", f"after set_protocol_version({w['set']!r}) the client reports "
+                        f"version={g.get('version')!r} batching={g.get('enabled')!r}", {"after_set": sets})
+        if not G.notif_ok(o["notified"], want["notified"]):
             return ("notification-not-offered", "id-less delivered messages are not the content of the notification stream", want)
         return None
 
